@@ -8,6 +8,16 @@ HOOK_COMMITS = subprocess.run(
 
 # property -> (level, technique, level text, level note, design ref)
 CLAIMED = {
+ "C01": ("fault_enumeration",
+         "deterministic simulation of the real ingester on a gated object store with feature-gated pause hooks; crash images (store fork + WAL directory + acknowledged ids) taken at every non-read scheduling step and booted in a fresh simulator; request-fault plan (fail before / after effect); thorough tier enumerates the fault position over the request indices of each execution",
+         "Held on every crash image explored: 1-3 concurrent writers, schema changes, threshold / timer / shutdown flushes, both catalog backends, 0-2 injected request faults (thorough: every ~n/24-th request index x both modes per execution), crash points at every request and pause hook, crash-restart-crash (recovery itself run gated and imaged, depth <= 2) and torn WAL tails made with the real encoder. Oracle per image: ensure_wal succeeds, and after the shutdown flush every acknowledged row id is in a chunk a fresh catalog client lists (duplicates allowed); catalog row counts match the chunks.",
+         "WAL sync mode EveryWrite; crash preserves exactly the bytes in the WAL directory and the object store at a scheduler barrier (no partial object PUTs); interleavings finer than a request / pause hook are not explored.",
+         "DESIGN.md section 3 C01"),
+ "C06": ("exploration",
+         "real-thread stress of the real ingester (multi-thread tokio runtime) + offline monitor: multiset comparison of canonical rows in registered chunks vs accepted writes, catalog entry vs decoded chunk, announcements on both broadcast channels vs registered chunks",
+         "Held on every round explored: 1-8 concurrent writers x 2-10 batches, three schemas (Int64 / Timestamp(ns) time column, with/without label), extreme values (+-0, subnormal, +-inf, NaN, f64 limits, empty / non-ASCII / NUL strings, null labels), row and byte thresholds, fast timer flush, shutdown flush, tiny buffer limit (rejections), WAL on/off, both catalog backends, two subscribers draining concurrently.",
+         "Fault-free by premise; rows of one round lie within a few hours (a chunk spanning decades explodes the hour-bucket index - noted in DESIGN.md, not part of C06); thread interleavings are whatever the OS produces (unsystematic).",
+         "DESIGN.md section 3 C06"),
  "C02": ("exploration",
          "deterministic request-granularity simulation of concurrent metadata clients + offline monitor over the recorded object-store event log (commit-order replay on a sequential map model, per-version index/chunk-map agreement)",
          "Held on every explored schedule: 2-4 real ObjectStoreMetadataClients x 2-8 mutations interleaved at object-store-request granularity (uniform, PCT and starvation strategies, first-write creation races, retry exhaustion); EVERY catalog version ever written is compared with the sequential model replayed in commit order, failed operations must have committed nothing. Sampled schedules, not all of them.",
